@@ -43,9 +43,10 @@ def solo_image(wspec):
 class Actor:
     """step function over one real cardutil object; records an observation per step"""
 
-    def __init__(self, spec, image=None):
+    def __init__(self, spec, image=None, shared_cfg=None):
         self.spec = spec
         self.image = image
+        self.shared_cfg = shared_cfg
         self.obs = []
         self.done = False
         self.started = False
@@ -61,6 +62,10 @@ class Actor:
         spec, image = self.spec, self.image
         mc = m["mciipm"]
         cfg = msgcodec.cfg_from_json(spec.get("config", "packaged"))
+        if self.shared_cfg is not None and cfg is not None:
+            # callers commonly hand the same configuration dict object to several instances
+            from .kernel import canon
+            cfg = self.shared_cfg.setdefault(canon(cfg), cfg)
         if spec["role"] == "writer":
             self.f = SimFile(name="w")
             if spec["cls"] == "IpmWriter":
@@ -138,20 +143,21 @@ class Actor:
 
 def build_actors(scn):
     actors = []
+    shared = {} if scn.get("share_config") else None
     for spec in scn["actors"]:
         image = None
         if spec["role"] == "reader":
             image = solo_image(spec["image_from"])
             if spec.get("faults"):
                 image = apply_faults(image, spec["faults"])
-        actors.append(Actor(spec, image))
+        actors.append(Actor(spec, image, shared))
     return actors
 
 
 def run_solo(scn):
-    """each actor created, executed and finished alone, one after another"""
+    """each actor created, executed and finished alone, one after another (own configuration object)"""
     out = []
-    for a in build_actors(scn):
+    for a in build_actors(dict(scn, share_config=False)):
         a.run_all()
         out.append(a)
     return out
